@@ -365,7 +365,7 @@ def _redraw(rng, scn: eng.Scn, flip_coro=False):
     for c in scn.cbs:
         c.sig = rng.choice(("ed", "named", "kwargs", "bare"))
         c.named = tuple(k for k in ("event", "source", "target", "state") if rng.random() < 0.5) if c.sig == "named" else ()
-        if flip_coro and c.group not in ("cond", "unless") and rng.random() < 0.5:
+        if flip_coro and c.group not in ("cond", "unless") and c.style not in ("attr", "evref") and rng.random() < 0.5:
             c.coro = not c.coro
             c.yields = rng.randint(0, 2) if c.coro else 0
 
